@@ -312,6 +312,14 @@ LINE_DICT = [
     b"__begin_publish", b"__end_publish", b"__published:", b"__make_property(", b"__make_property(a)", b"__make_property(a, b, c, d, e, f, g);",
     b"__make_seq(a, b);", b"__make_seq_property(a, b, c);", b"__make_map_property(m, a, b);", b"__extension", b"__blocking", b"__make_property2(",
     b"__make_map_keys_seq(a,b,c);",
+    b"#pragma push_macro(\"X\")", b"#pragma pop_macro(\"X\")", b"#pragma push_macro(", b"#pragma pop_macro(\"\")",
+    b"#pragma push_macro(\"defined\")", b"#pragma pop_macro(\"UNDEF\")", b"#pragma push_macro(\"F\")\n#pragma push_macro(\"F\")",
+    b"#pragma push_macro(X)", b"#pragma pop_macro ( \"X\" ) trailing", b"#pragma once\n#pragma once", b"#undef UNDEFINED_NAME",
+    b"#undef __cplusplus", b"#undef defined", b"#undef __FILE__", b"#undef X Y", b"#define X 1\n#define X 2", b"#define X(a) a\n#define X 2\nX(1)",
+    b"#define X 1\n#undef X\n#undef X\nX", b"#if __has_include(X)", b"#if __has_include(\"\")", b"#if __has_include(<>)", b"#if __has_include(<a b>)",
+    b"#if __has_include(__FILE__)", b"#if __has_include_next(<string>)", b"#if __has_include(<string>) && __has_include(\"main.h\")",
+    b"#if __has_include(<string> )x", b"#if __has_include 1", b"#if defined(__has_include) && __has_include(<vector>", b"#include_next \"main.h\"",
+    b"#include_next <", b"#include_next", b"#import <string>", b"#pragma GCC system_header", b"#pragma pack(push, 1)", b"#pragma message(\"m\")",
 ]
 
 TOKEN_DICT = [
@@ -680,6 +688,102 @@ def m_newlines(rng, name, data, corp):
     return data.rstrip(b"\n") + rng.choice((b"", b"\\", b"\\\n", b"//", b"/*", b"\"", b"'", b"#", b"# ", b"\r"))
 
 
+# ---------------------------------------------------------------------------
+# multi-step preprocessor state: sequences of related directives on ONE macro name, followed by uses of the name
+# ---------------------------------------------------------------------------
+
+PP_OPS = ("push", "pop", "defobj", "deffn", "undef")
+
+
+def pp_op_line(op, name, rng=None):
+    if op == "push":
+        return b"#pragma push_macro(\"" + name + b"\")"
+    if op == "pop":
+        return b"#pragma pop_macro(\"" + name + b"\")"
+    if op == "defobj":
+        body = rng.choice((b"1", b"(2+3)", b"", b"int", b"\"s\"", name)) if rng else b"7"
+        return b"#define " + name + b" " + body
+    if op == "deffn":
+        body = rng.choice((b"(a)", b"a##a", b"#a", b"", name + b"(a)")) if rng else b"((a)+1)"
+        return b"#define " + name + b"(a) " + body
+    if op == "defva":
+        return b"#define " + name + b"(...) __VA_ARGS__"
+    if op == "undef":
+        return b"#undef " + name
+    if op == "once":
+        return b"#pragma once"
+    if op == "ifdef":
+        return b"#ifdef " + name + b"\nint " + name + b"_seen;\n#endif"
+    if op == "hasinc":
+        return b"#if __has_include(" + rng.choice((b"<string>", b"\"main.h\"", name, b"<" + name + b">", b"")) + b")\n#endif"
+    if op == "incnext":
+        return b"#include_next <string>"
+    raise ValueError(op)
+
+
+def pp_uses(name):
+    """every way a later token stream can meet the name"""
+    return [b"int use_" + name + b"_a = " + name + b";",
+            b"int use_" + name + b"_b = " + name + b"(1);",
+            b"#ifdef " + name + b"\nint use_" + name + b"_c;\n#endif",
+            b"#if defined(" + name + b") && " + name + b"\n#endif",
+            b"#if " + name + b"(2)\n#endif"]
+
+
+def pp_sequences(maxlen=4):
+    """all sequences of 1..maxlen operations over PP_OPS (seed independent)"""
+    import itertools
+    for n in range(1, maxlen + 1):
+        for seq in itertools.product(PP_OPS, repeat=n):
+            yield seq
+
+
+def pp_sequence_files(per_file=12, maxlen=4):
+    """-> list of (label, bytes): every operation sequence on its own macro name, each followed by uses; several
+    independent sequences per file.  Only the first use kind that matters is kept per sequence to stay small:
+    object-like use, call-like use and #if use all follow."""
+    files, cur, k = [], [], 0
+    for seq in pp_sequences(maxlen):
+        name = b"Q%d" % k
+        k += 1
+        lines = [pp_op_line(op, name) for op in seq] + pp_uses(name)
+        cur.append(b"\n".join(lines))
+        if len(cur) == per_file:
+            files.append(("ppseq%d" % len(files), b"\n".join(cur) + b"\n"))
+            cur = []
+    if cur:
+        files.append(("ppseq%d" % len(files), b"\n".join(cur) + b"\n"))
+    return files
+
+
+_PP_RAND_OPS = ("push", "pop", "defobj", "deffn", "defva", "undef", "push", "pop", "once", "ifdef", "hasinc", "incnext")
+
+
+def m_pp_sequence(rng, name, data, corp):
+    """insert 2-4 related directives about one macro name at increasing random line positions, then uses of it"""
+    toks = _toks(name, data)
+    ids = sorted({t[1] for t in toks if t[0] == "id"})
+    r = rng.random()
+    if ids and r < 0.5:
+        mac = rng.choice(ids)          # a name the file already uses (macro, type, variable, keyword...)
+    elif r < 0.8:
+        mac = rng.choice((b"X", b"F", b"ONE", b"ADD", b"PUBLISHED", b"T", b"std", b"defined", b"__VA_ARGS__", b"__cplusplus"))
+    else:
+        mac = b"Z%d" % rng.randrange(100)
+    lines = data.split(b"\n")
+    n = rng.randrange(2, 5)
+    pos = sorted(rng.randrange(len(lines) + 1) for _ in range(n))
+    ops = [rng.choice(_PP_RAND_OPS) for _ in range(n)]
+    for i in reversed(range(n)):
+        lines.insert(pos[i], pp_op_line(ops[i], mac, rng))
+    use_at = pos[-1] + n
+    uses = pp_uses(mac)
+    rng.shuffle(uses)
+    for u in uses[:rng.randrange(1, 4)]:
+        lines.insert(min(len(lines), use_at + rng.randrange(0, 3)), u)
+    return b"\n".join(lines)
+
+
 def m_dict_compose(rng, name, data, corp):
     """a small file made only of dictionary items around a few valid lines."""
     lines = []
@@ -715,6 +819,7 @@ MUTATORS = {
     "trunc_in": (m_trunc_in, 8),
     "newlines": (m_newlines, 3),
     "dict_compose": (m_dict_compose, 8),
+    "pp_sequence": (m_pp_sequence, 10),
 }
 _MUT_NAMES = sorted(MUTATORS)
 _MUT_WEIGHTS = [MUTATORS[n][1] for n in _MUT_NAMES]
